@@ -253,9 +253,11 @@ class Outcome:
         for kid, (k, fs) in sorted(old.items()):
             print(f"KNOWN-FINDING: property={self.pid} {kid}: {k['what']} ({len(fs)} records this run)")
         rc = 0
+        d = REPLAY / self.pid
+        if d.exists():
+            shutil.rmtree(d, ignore_errors=True)
         if new:
             rc = 1
-            d = REPLAY / self.pid
             d.mkdir(parents=True, exist_ok=True)
             for i, f in enumerate(new[:20]):
                 path = d / f"violation_{i}.json"
